@@ -224,6 +224,7 @@ def replay(pattern, folders, opts, new, witness):
         open(p, "wb").write(img)
         try:
             with py7zr.SevenZipFile(p, "a", filters=[{"id": py7zr.FILTER_COPY}]) as z:
+                z.set_encoded_header_mode(False)   # so that the independent reader can look at the header as well
                 for i, k in enumerate(new):
                     name = "new/n%d.bin" % i
                     if k == "s":
@@ -253,6 +254,21 @@ def replay(pattern, folders, opts, new, witness):
             return True, "archive unreadable after append: %r" % (e,)
         if names != [n for n, _ in expect]:
             return True, "names after append: %s" % names
+        # the independent reader must accept what was written and assign the same sizes / CRCs
+        import struct
+
+        from vf import ref7z
+
+        raw = open(p, "rb").read()
+        ofs, size, _crc = struct.unpack("<QQL", raw[12:32])
+        try:
+            h = ref7z.rd_header(io.BytesIO(raw[32 + ofs:32 + ofs + size]))
+            mm = ref7z.member_map(h)
+        except Exception as e:  # noqa
+            return True, "the header written by the append session is rejected by the independent reader: %r" % (e,)
+        for (n, dta), m in zip(expect, mm):
+            if dta is not None and (m["size"] != len(dta) or (m["crc"] is not None and m["crc"] != zlib.crc32(dta))):
+                return True, "independent reader: member %s has size %s crc %s, expected %d / %d" % (n, m["size"], m["crc"], len(dta), zlib.crc32(dta))
         for n, dta in expect:
             if dta is not None and got.get(n) != dta:
                 return True, "member %s changed by/after append: %r" % (n, got.get(n))
@@ -269,7 +285,8 @@ def units(tier):
     bases = [("f", [1], {}), ("ff", [2], {}), ("ff", [1, 1], {}), ("fdf", [2], {}), ("d", [], {}), ("", [], {}),
              ("ff", [1, 1], {"packpos": True}), ("ffd", [2], {"attrs": "partial"}), ("dff", [1, 1], {"crc_at": "folder"}),
              ("ff", [2], {"times": "none"}), ("fd", [1], {"attrs": "none"}),
-             ("fd", [1, 0], {}), ("fdf", [1, 0, 1], {})]   # a folder without members (what appending a lone directory leaves); above: a foreign base without any mtime / attribute property
+             ("fd", [1, 0], {}), ("fdf", [1, 0, 1], {}),
+             ("ff", [2], {"crc_at": "none"})]   # a base without any CRC: after the append the digest vector is partially defined   # a folder without members (what appending a lone directory leaves); above: a foreign base without any mtime / attribute property
     if tier == "thorough":
         bases += [("fff", [2, 1], {"times": "partial"}), ("fef", [1, 1], {"emptyfile_vector": True}), ("fdff", [2, 1], {}),
                   ("fff", [1, 2], {"packcrc": True}), ("ff", [2], {"omit_numunpack": False})]
